@@ -244,7 +244,13 @@ func TestVerifC11(t *testing.T) {
 		}
 		check := func(x *vrt.Exec, choices []int) bool {
 			r.Eval()
-			if e := x.Err(); e != "" {
+			if e := x.Err(); e != "" && strings.Contains(e, "replay divergence") {
+				// the explorer could not reproduce its own prefix: a source of nondeterminism it does
+				// not own. That says nothing about the property: counted, the run is not exhaustive.
+				r.Count("schedules_not_reproducible(replay divergence)", 1)
+				r.NotExhaustive("scenario " + name + ": a schedule prefix could not be reproduced (" + e + ")")
+				return true
+			} else if e != "" {
 				r.Violate("sched/"+name+"/"+vh.Hash(fmt.Sprint(choices)), "execution did not complete: "+e, map[string]interface{}{"scenario": si, "choices": choices})
 				return true
 			}
